@@ -157,15 +157,34 @@ func RunTree(r *vh.Run, rng *vh.RNG, name string, t *chainx.Tree, sched [][]int)
 		atTip(c, t, nd, s, twinDigest)
 	}
 	for bi, batch := range sched {
-		res := c01.Submit(nd, t.Get(batch))
+		beforeTip, beforeN := nd.CM.Tip(), len(nd.Reorgs)
+		var res string
 		var sb strings.Builder
-		sb.WriteString("add")
+		// the syncer's pre-validated path, also with batches that overlap blocks already applied
+		if c01.PreValidated(t, batch) && (len(batch)+bi)%2 == 0 {
+			res = c01.SubmitV2(t, nd, batch, len(batch))
+			fmt.Fprintf(&sb, "addv2 %d", len(batch))
+			c.Tags = append(c.Tags, "addv2")
+		} else {
+			res = c01.Submit(nd, t.Get(batch))
+			sb.WriteString("add")
+		}
 		for _, id := range batch {
 			fmt.Fprintf(&sb, " %d", id)
 		}
 		c.Op(sb.String(), c01.Observe(t, nd, res))
 		if res == "panic" {
+			c.Oracle("submission-panic", "submission of %v panicked: %s", batch, c01.LastPanic)
 			break
+		}
+		// reorg notifications are delivered whenever, and only when, the tip has changed
+		switch moved, got := nd.CM.Tip() != beforeTip, len(nd.Reorgs)-beforeN; {
+		case moved && got != 1:
+			c.Oracle("reorg-not-notified", "tip changed %s -> %s but %d notification(s) were delivered", idxStr(t, beforeTip), idxStr(t, nd.CM.Tip()), got)
+		case moved && nd.Reorgs[len(nd.Reorgs)-1] != nd.CM.Tip():
+			c.Oracle("reorg-notified-wrong-tip", "notification carried %v, tip is %v", nd.Reorgs[len(nd.Reorgs)-1], nd.CM.Tip())
+		case !moved && got != 0:
+			c.Oracle("notified-without-tip-change", "%d notification(s) although the tip stayed at %s (result %s)", got, idxStr(t, beforeTip), res)
 		}
 		for _, s := range subs {
 			if bi%s.lazy != 0 {
